@@ -5,6 +5,7 @@ go 1.23
 toolchain go1.23.5
 
 require (
+	github.com/blang/semver v3.5.1+incompatible
 	github.com/shopspring/decimal v0.0.0-20180709203117-cd690d0c9e24
 	github.com/sirupsen/logrus v1.1.1
 	github.com/skycoin/skycoin v0.0.0
@@ -13,7 +14,6 @@ require (
 )
 
 require (
-	github.com/blang/semver v3.5.1+incompatible // indirect
 	github.com/boltdb/bolt v1.3.1 // indirect
 	github.com/cenkalti/backoff v1.1.0 // indirect
 	github.com/mattn/go-colorable v0.0.9 // indirect
